@@ -102,6 +102,8 @@ def p1_programs():
     for rx in ("/a.c/", "/^[0-9]+$/", "/b+/", "/(x|1)0/", "/\\./", "/^A/"):
         out.append(fn("regex", [], [T(rx), A]))
         out.append(fn("exact", [], [T(rx), A]))
+    for f in ("min_length", "max_length"):
+        out += [fn(f, [], [A, T(2)]), fn(f, [], [B, T(1)]), fn(f, [], [A, T(0)]), fn(f, [], [fn("concat", [], [A, B]), T(3)])]
     out += [fn("all", [], [A, B]), fn("missing", [], [A, B]), fn("all", [], [A, B, ABSENT]), fn("missing", [], [B, A1])]
     out += [fn("int", [], [A]), fn("float", [], [A]), fn("int", [], [B]), fn("starts_with", [], [A, T("a")]), fn("starts_with", [], [A, B]), fn("starts_with", [], [B, T("1")])]
     out += [["->", ["==", A, T("1")], ["=", ["v", "w"], [], B]], ["=", ["v", "w"], [], A], ["=", ["v", "w"], ["notnone"], ABSENT]]
